@@ -55,7 +55,7 @@ def run(ctx):
     law = gen.build_law(lw, lc)
     k = O.ext_pattern(lw, lc, wav)
     fitter = gen.make_fitter(bn, np.ones(nb), md, law, (0.0, 30.0))
-    n_calls = 60 if ctx.quick else 400
+    n_calls = 60 if ctx.quick else 2000
     for ic in range(n_calls):
         n_src = int(rng.integers(1, 11))
         infos = []
